@@ -116,6 +116,8 @@ def start_point(n, lo, hi, start, table):
         return 0.5 * (lo + hi)
     if start == 'mixed':
         return lo + gen(table, 7, n) * (hi - lo)
+    if start == 'int':      # integer-valued start (the harness hands it over as integer-typed states)
+        return np.ones(n)
     raise KeyError(start)
 
 
